@@ -7,7 +7,7 @@ from props.asm_common import oracle as spec_oracle
 PID = "C01"
 LEAN_TARGETS = ["EtkVerif.Props.C01"]
 RULE = ("1-5 labels each followed by a sentinel jumpdest, 1-6 fixed-width and %push operands over label expressions (forward, "
-        "backward, `label +- k`, `K - label`), fillers that put offsets at 250..256 and, in every tenth case, at 65529..65536 (one raw blob); every 25th case has 1-3 %push whose label crosses 65536 only after widening, so a push grows twice in separate rounds; every label "
+        "backward, `label +- k`, `K - label`), fillers that put offsets at 250..256 and, in every tenth case, at 65529..65536 (one raw blob); every 25th case has 1-3 %push whose label crosses 65536 only after widening, so a push grows twice in separate rounds; plus n/5 cascades (2-4 %push whose widenings trigger each other over successive rounds in any program order, a referenced label behind each) and self-shifting pushes (`%push(lbl + K)` growing 1->2->3); every label "
         "probed at the end by `push3 label`; checked three ways: bytes = reference semantics (least fixed point layout in "
         "Python), bytes = model, and independently of both: the output is decoded and out[probe immediate] must be the "
         "sentinel 0x5b. non-trivial = some %push grew beyond one byte or a label value >= 256")
@@ -28,6 +28,12 @@ def cases(rng, tier):
         twice = i % 25 == 3
         prog, labels = with_probes(rng, G.gen_twice(rng) if twice else G.gen_shrink(rng) if (i % 5 == 4 and not big) else G.gen_layout(rng, big=big))
         cs.append(G.finish(prog, rng, ["twice" if twice else "layout-big" if big else "layout"], extra={"probes": len(labels)}))
+    # widenings that cascade over several rounds in any order of the pushes, with referenced labels between the pushes;
+    # a push that shifts its own label and grows twice
+    for i in range(n // 5):
+        kind = "selfshift" if i % 4 == 3 else "cascade"
+        prog, labels = with_probes(rng, G.gen_selfshift(rng) if kind == "selfshift" else G.gen_cascade(rng))
+        cs.append(G.finish(prog, rng, [kind], extra={"probes": len(labels)}))
     return cs
 
 
